@@ -17,6 +17,7 @@ type Scanner struct {
 	I      int
 	Reads  int
 	FailAt int // >= 0: ReadRune fails with ErrInjected once I >= FailAt
+	Once   bool // the failure happens once (consuming nothing), then the reader recovers
 	Failed bool
 	Frozen bool // set by the harness when the call has returned
 	Late   int  // reads/unreads after Frozen
@@ -37,7 +38,7 @@ func (s *Scanner) ReadRune() (rune, int, error) {
 		s.Late++
 	}
 	s.Reads++
-	if s.FailAt >= 0 && s.I >= s.FailAt {
+	if s.FailAt >= 0 && s.I >= s.FailAt && !(s.Once && s.Failed) {
 		s.Failed = true
 		return 0, 0, ErrInjected
 	}
@@ -92,6 +93,22 @@ func parseRunes(env *interp.ExecEnv, r []rune) ([]ast.Command, []*ast.Comment, e
 
 // Templates is the corpus of concrete programs that put the lexer and the
 // grammar into each of their states; harnesses punch symbolic holes into them.
+// ErrTemplates are ill-formed programs whose error is found by the parser
+// while the lexer still has work to do on the same line (a pending
+// here-document, a nested substitution, a trailing comment).
+var ErrTemplates = []string{
+	"a <<E; ;\nx\nE\nb\n",
+	"a <<E ;;\nx\nE\n",
+	"{ a <<E && ;\nx\nE\n",
+	"a $(b <<E; ;\nx\nE\n)",
+	"a <<E | |\nx\n",
+	"a <<E > ;\nx\nE\n",
+	"a ; ; # c\nb\n",
+	"a ) 'b\n",
+	"a | | $(b\n",
+	"a && ; `b`\n",
+}
+
 var Templates = []string{
 	"a b c",
 	"a=1 b=2 c d",
@@ -146,6 +163,14 @@ var Templates = []string{
 	"f() { a; } >f 2>&1",
 	"while a; do b; done <f | c",
 	"a ${#*} ${#@} ${#-} ${*:-x} ${@:+y} \"${#*}\"",
+	"a \"b\nc\\\"d \\$e\" f",
+	"a <<E\nx\ny \\$z `w`\nE\n",
+	"if a; b\nthen c\nfi",
+	"until a; b\nc\ndo d\ndone",
+	"while a & b\ndo c\ndone",
+	"a <<\\A <<B\nx\nA\n$(c\nB\n)\nB\n",
+	"((1 + 2)); ( (a))",
+	"a $(b; c) `d | e` f",
 	"case x in a) b; ;; c) d; ;; esac",
 	"case x in a) b & ;; c) d;; esac",
 	"if a; b; then c; d; fi",
